@@ -34,6 +34,7 @@ package task
 //@ ghost table depClo(t *ast.Task, j int) ref local
 
 //@ func (*Executor).runDeps$1
+//@   requires tok == 0 -- a goroutine started by errgroup.Go holds no concurrency slot
 //@   site RunTask#1 requires arg2.Task == d.Task && arg2.Vars == d.Vars && arg2.Silent == d.Silent && arg2.Indirect    [C01,C02]
 //@   site RunTask#1 ghost set depCallOK(d) if result == nil
 //@   ensures result == nil ==> depCallOK(d)                                                            [C01,C03]
@@ -114,9 +115,10 @@ package task
 //@ ghost fact cmdExitFail(t *ast.Task, i int)
 //@ ghost table deferRegistered(t *ast.Task, i int) bool local
 //@ ghost fact deferRan(t *ast.Task, i int)
-//@ ghost fact shellFailed(t *ast.Task, i int)
-//@ ghost fact shellExitFail(t *ast.Task, i int)
-//@ ghost fact nestedFailed(t *ast.Task, i int)
+// observation variables of runCommand: did the shell command fail, was it an exit status, did the nested call fail
+//@ ghost var shFailed bool scratch
+//@ ghost var shExit bool scratch
+//@ ghost var nestFailed bool scratch
 //@ ghost fact execOK(h string)
 //@ ghost fact notAncestor(h string)
 
@@ -176,14 +178,17 @@ package task
 //@   ensures  tok == old(tok)                                                                          [C07]
 //@   site (*Executor).RunTask#1 requires arg2.Task == t.Cmds[i].Task && arg2.Vars == t.Cmds[i].Vars
 //@        && arg2.Silent == t.Cmds[i].Silent && arg2.Indirect                                          [C02]
-//@   site (*Executor).RunTask#1 ghost set nestedFailed(t, i) if result != nil
+//@   init shFailed := false
+//@   init shExit := false
+//@   init nestFailed := false
+//@   site (*Executor).RunTask#1 ghost nestFailed := result != nil
 //@   site execext.RunCommand#1 requires !e.Dry                                                         [C12]
 //@   site execext.RunCommand#1 requires semLimited() ==> tok == 1                                      [C07]
 //@   site execext.RunCommand#1 requires arg1.Command == t.Cmds[i].Cmd && arg1.Dir == t.Dir             [C02]
-//@   site execext.RunCommand#1 ghost set shellFailed(t, i) if result != nil
-//@   site IsExitStatus#1 ghost set shellExitFail(t, i) if result.1
-//@   ensures result == nil && shellFailed(t, i) ==> shellExitFail(t, i) && t.Cmds[i].IgnoreError     [C03]
-//@   ensures nestedFailed(t, i) ==> result != nil                                                      [C03]
+//@   site execext.RunCommand#1 ghost shFailed := result != nil
+//@   site IsExitStatus#1 ghost shExit := result.1
+//@   ensures result == nil && shFailed ==> shExit && t.Cmds[i].IgnoreError                             [C03]
+//@   ensures nestFailed ==> result != nil                                                              [C03]
 
 //@ func (*Executor).runDeferred
 //@   trusted
@@ -199,6 +204,48 @@ package task
 //@   modifies heap
 //@   preserves $RUNDATA
 //@ func (*Executor).mkdir
+//@   modifies heap
+//@   preserves $RUNDATA
+//@   blocks
+
+// Compiling a task builds a fresh copy (C11 examines this frame); trusted here.
+//@ func (*Executor).CompiledTask
+//@   trusted
+//@   modifies heap
+//@   preserves $RUNDATA
+//@   blocks
+//@   nilable result
+//@   ensures result.1 == nil ==> result.0 != nil && fresh(result.0)
+//@ func (*Executor).FastCompiledTask
+//@   trusted
+//@   modifies heap
+//@   preserves $RUNDATA
+//@   nilable result
+//@   ensures result.1 == nil ==> result.0 != nil && fresh(result.0)
+
+// startExecution: "always" tasks (empty key) just run; otherwise the first caller registers the key and runs,
+// later callers wait for it. execOK(h): the registered execution for key h returned nil.
+//@ func (*Executor).startExecution
+//@   param execute fnspec taskBody
+//@   modifies heap
+//@   preserves $RUNDATA
+//@   blocks
+//@   requires semLimited() ==> tok == 1
+//@   ensures  tok == old(tok)                                                                          [C07]
+//@   site execute#1 requires h == ""                                                                   [C06]
+//@   site execute#2 requires h != "" && !ok                                                            [C06]
+//@   site execute#2 ghost set execOK(h) if result == nil
+//@   site recv#1 requires semLimited() ==> tok == 0                                                    [C07]
+//@   site recv#1 requires notAncestor(h)                                                               [C07]
+//@   ensures result == nil && h != "" ==> execOK(h)                                                   [C01,C06]
+
+// Callees of runCommand whose bodies are outside this proof (trusted frames).
+//@ func (*Compiler).FastGetVariables
+//@   trusted
+//@   modifies heap
+//@   preserves $RUNDATA
+//@ func (*Compiler).GetVariables
+//@   trusted
 //@   modifies heap
 //@   preserves $RUNDATA
 //@   blocks
